@@ -360,11 +360,15 @@ def check_point(case):
         pw = kern.kernel(xij, rr, h)
         pg = [0.0, 0.0, 0.0]
         kern.gradient(xij, rr, h, pg)
-        if not near(ww, pw, pk):
-            bad.append(('Wrapper.kernel', ww, pw))
-        for a in range(3):
-            if not near(wg[a], pg[a], pk / h):
-                bad.append(('Wrapper.gradient[%d]' % a, wg[a], pg[a]))
+        # the wrapper recomputes r from the coordinates: within the
+        # rounding band of a discontinuous support edge it may legitimately
+        # land on the other side
+        if not disc_band:
+            if not near(ww, pw, pk):
+                bad.append(('Wrapper.kernel', ww, pw))
+            for a in range(3):
+                if not near(wg[a], pg[a], pk / h):
+                    bad.append(('Wrapper.gradient[%d]' % a, wg[a], pg[a]))
         if bad:
             fails.append(Failure(name, 'compiled_twin',
                                  'compiled != python: %r (q=%r h=%r)' % (
